@@ -184,6 +184,8 @@ def run(cfg: Config, monitor=None) -> Result:
     """Execute one tableau run. `monitor` (optional) gets on_created(tab,res), on_trunk(tab,res),
     on_step(tab,res,entry), on_finish(tab,res) callbacks; it may raise MonitorAbort."""
     res = Result()
+    if monitor is not None and not isinstance(monitor, _Guarded):
+        monitor = _Guarded(monitor)
     _verif.reset(cfg.order_seed, cfg.overrides)
     LexicalAbcMeta.__call__._cache.__init__(maxlen=cfg.cache)
     clock = VClock(cfg.clock_base, cfg.clock_plan)
@@ -229,6 +231,9 @@ def run(cfg: Config, monitor=None) -> Result:
         except MonitorAbort as e:
             res.error = e
             res.outcome = 'aborted:' + str(e)
+        except MonitorVerdict as e:
+            res.error = e
+            res.outcome = 'verdict:' + type(e).__name__
         except Exception as e:  # the system under test raised
             res.error = e
             res.outcome = 'error:' + type(e).__name__
@@ -239,13 +244,35 @@ def run(cfg: Config, monitor=None) -> Result:
                     res.steps.append(step_record(res, entry))
                 if res.outcome is None:
                     res.outcome = classify(tab, res)
-            if monitor is not None and not (res.outcome or '').startswith(('error', 'aborted')):
+            if monitor is not None and not (res.outcome or '').startswith(('error', 'aborted', 'verdict')):
                 with frozen(clock):
                     monitor.on_finish(tab, res)
     return res
 
 class MonitorAbort(Exception):
     pass
+
+class MonitorVerdict(Exception):
+    "Base class for exceptions a monitor raises on purpose (a property clause failed)."
+
+class HarnessError(BaseException):
+    "A monitor (our code) raised unexpectedly; never to be confused with the system under test."
+
+class _Guarded:
+    "Wraps a monitor so that its own bugs surface as HarnessError."
+    def __init__(self, mon):
+        self._mon = mon
+    def __getattr__(self, name):
+        fn = getattr(self._mon, name)
+        def call(*a, **kw):
+            try:
+                return fn(*a, **kw)
+            except (MonitorAbort, MonitorVerdict):
+                raise
+            except Exception as e:
+                import traceback
+                raise HarnessError('monitor.%s raised %s: %s\n%s' % (name, type(e).__name__, e, traceback.format_exc())) from None
+        return call
 
 def classify(tab, res=None):
     if res is not None and res.timed_out:
